@@ -503,26 +503,26 @@ impl Session {
         self.next_incoming_id = flow.next_outgoing_id;
         self.remote_outgoing_window = flow.outgoing_window;
 
-        match &flow.next_incoming_id {
-            Some(flow_next_incoming_id) => {
-                // The remote-incoming-window is computed as follows:
-                // next-incoming-id_flow + incoming-window_flow - next-outgoing-id_endpoint
-                self.remote_incoming_window = flow_next_incoming_id
-                    .saturating_add(flow.incoming_window)
-                    .saturating_sub(self.next_outgoing_id);
-            }
-            None => {
-                // If the next-incoming-id field of the flow frame is not set,
-                // then remote-incoming-window is computed as follows:
-                // initial-outgoing-id_endpoint + incoming-window_flow -
-                // next-outgoing-id_endpoint
-                self.remote_incoming_window = self
-                    .initial_outgoing_id
-                    .value()
-                    .saturating_add(flow.incoming_window)
-                    .saturating_sub(self.next_outgoing_id);
-            }
-        }
+        // The remote-incoming-window is computed as follows:
+        // next-incoming-id_flow + incoming-window_flow - next-outgoing-id_endpoint
+        //
+        // If the next-incoming-id field of the flow frame is not set, then
+        // initial-outgoing-id_endpoint is used in its place.
+        //
+        // Transfer ids are serial numbers (RFC 1982) that wrap around at 2^32, so the
+        // number of transfers the peer has not yet accounted for is computed in wrapping
+        // arithmetic and then taken out of the advertised window.
+        let flow_next_incoming_id = flow
+            .next_incoming_id
+            .unwrap_or_else(|| *self.initial_outgoing_id.value());
+        let outstanding = self.next_outgoing_id.wrapping_sub(flow_next_incoming_id);
+        let outstanding = if outstanding > u32::MAX / 2 {
+            // The peer claims to have received more than was sent
+            0
+        } else {
+            outstanding
+        };
+        self.remote_incoming_window = flow.incoming_window.saturating_sub(outstanding);
 
         // Handle link flow control
         if let Ok(link_flow) = LinkFlow::try_from(flow) {
